@@ -124,6 +124,10 @@ func runC12(c *Ctx) {
 			}
 		}
 	}
+	// the constructors that take the bound as an argument (deprecated FIFO/LIFO wrappers, generic pools)
+	for _, ct := range []qCtor{qCtors()[3], qCtors()[4], qCtors()[8], qCtors()[9]} {
+		c.Explore(qdScenario(qdCase{prop: "C12", ctor: ct, limit: 1, maxBacklog: 1, timeout: 100 * time.Millisecond, maxArrive: 4, depth: c.Pick(5, 6)}), opt0)
+	}
 	for _, fp := range []string{"fifo", "lifo"} {
 		c.Explore(qdScenario(qdCase{prop: "C12", fixedPool: fp, limit: 1, maxBacklog: 1, timeout: 100 * time.Millisecond, maxArrive: 4, depth: depth}), opt0)
 	}
